@@ -205,6 +205,14 @@ impl RawMemoryFreeList {
             self.add_to_free(cursor);
             cursor -= grain;
         }
+
+        /* If the old size was not a multiple of the grain, link what lies below the lowest
+        grain-sized region as well, so that every new unit is allocatable */
+        let remainder = cursor + grain - old_max;
+        if remainder > 0 {
+            self.set_size(old_max, remainder);
+            self.add_to_free(old_max);
+        }
     }
 
     fn raise_high_water(&mut self, blocks: i32) {
